@@ -71,7 +71,7 @@ def _child(task, conn):
         conn.close()
 
 
-def run_parallel(ctx, tasks, jobs):
+def run_parallel(ctx, tasks, jobs, deadline=None):
     """One forked process per obligation, at most `jobs` at a time.  A process that dies (z3 can
     abort on an internal assertion) or overruns its hard limit yields an *inconclusive* result;
     it is retried once."""
@@ -85,6 +85,11 @@ def run_parallel(ctx, tasks, jobs):
                 "kind": ob.get("kind", "crosshair"), "status": "inconclusive", "detail": why, "witness": "refuted (not run)"}
 
     while queue or running:
+        if deadline is not None and queue and time.time() > deadline:
+            # wall budget of the tier used up: what has not started is reported as not explored (inconclusive)
+            for (i, _att) in queue:
+                results[i] = crashed(i, "not started: the tier's wall budget (VERIF_BUDGET_S) was used up")
+            queue = []
         while queue and len(running) < jobs:
             i, attempt = queue.pop(0)
             rd, wr = ctx.Pipe(duplex=False)
@@ -198,6 +203,8 @@ def main(argv=None):
                 harness_errors.append((rec["name"], "concrete input fails in-process but not in a fresh process: " + out[-300:]))
 
     # ---- 2. symbolic obligations -----------------------------------------------------------
+    budget = float(os.environ.get("VERIF_BUDGET_S", "1500" if tier == "quick" else "3000"))
+    deadline = t0 + budget
     results = []
     open_tags = [f["tag"] for f in open_known if f.get("tag")]
     tasks = [{"module": modname, "ob": o, "exclude": [], "open_tags": open_tags} for o in obs]
@@ -208,7 +215,7 @@ def main(argv=None):
     rounds = 0
     while pending and rounds < 9:
         rounds += 1
-        out = run_parallel(ctx, pending, a.j)
+        out = run_parallel(ctx, pending, a.j, deadline)
         again = []
         for task, res in zip(pending, out):
             for tg in res.get("known_tags", []) or []:
